@@ -21,6 +21,7 @@ type config struct {
 	badCode                         int
 	order                           int  // index into optionOrders: the order in which the three duration options are passed to New
 	edge                            bool // sub-millisecond timing around the end of the fallback period (own small alphabet)
+	companion                       bool // a second breaker with other durations completes a full cycle before each build
 }
 
 // optionOrders: every permutation of (FallbackDuration, RecoveryDuration, CheckPeriod).
@@ -51,7 +52,35 @@ type sys struct {
 
 var base = clock.Date(2012, 3, 4, 5, 6, 7, 0, clock.UTC)
 
+// companionCycle: ANOTHER breaker with different durations lives in the same process and goes through a complete
+// trip / fallback / recovery / standby cycle just before the breaker under test is built. Instances must not
+// influence each other (anything package-level - pools, caches - would carry the other instance's configuration).
+func companionCycle(cfg config) {
+	clock.Freeze(base.Add(-time.Hour))
+	code := cfg.badCode
+	h := http.HandlerFunc(func(w http.ResponseWriter, r *http.Request) { w.WriteHeader(code) })
+	fb, rc := 3*cfg.fallback+time.Second, 7*cfg.recovery+time.Second
+	cb, err := cbreaker.New(h, cfg.cond, cbreaker.FallbackDuration(fb), cbreaker.RecoveryDuration(rc), cbreaker.CheckPeriod(cfg.checkPeriod))
+	if err != nil {
+		panic(err)
+	}
+	do := func() { cb.ServeHTTP(httptest.NewRecorder(), httptest.NewRequest("GET", "http://x/", nil)) }
+	do() // trips
+	code = 200
+	clock.Advance(fb + time.Millisecond)
+	do() // recovery begins
+	clock.Advance(rc / 2)
+	for k := 0; k < 4; k++ {
+		do()
+	}
+	clock.Advance(rc)
+	do() // back to standby
+}
+
 func newSys(cfg config) *sys {
+	if cfg.companion {
+		companionCycle(cfg)
+	}
 	clock.Freeze(base)
 	s := &sys{cfg: cfg}
 	h := http.HandlerFunc(func(w http.ResponseWriter, r *http.Request) {
@@ -320,7 +349,7 @@ func model(cfg config, prop, tier string, depth int) *lib.Model[*sys] {
 				continue
 			}
 			rep.Violate(p[0], p[1]+" ["+cfg.String()+"]", map[string]any{"engine": "xstate", "part": "cb", "fallback_ns": int64(cfg.fallback), "recovery_ns": int64(cfg.recovery),
-				"check_ns": int64(cfg.checkPeriod), "option_order": cfg.order, "edge": cfg.edge, "cond": cfg.cond, "bad_code": cfg.badCode, "tier": tier, "ops": m.OpNames(hist), "observations": obs})
+				"check_ns": int64(cfg.checkPeriod), "option_order": cfg.order, "edge": cfg.edge, "companion": cfg.companion, "cond": cfg.cond, "bad_code": cfg.badCode, "tier": tier, "ops": m.OpNames(hist), "observations": obs})
 		}
 	}
 	return m
@@ -354,7 +383,7 @@ func configs(prop, tier string) []config {
 					if tier != "thorough" && (i+j+k+l)%2 == 1 {
 						continue // quick: half of the product, every value of every parameter still occurs
 					}
-					out = append(out, config{f, r, c, cd.c, cd.code, 0, false})
+					out = append(out, config{f, r, c, cd.c, cd.code, 0, false, false})
 				}
 			}
 		}
@@ -391,6 +420,12 @@ func Run(tier string, sh lib.Shard, rep *lib.Report) {
 	// The order in which options are passed can only matter through the breaker that New builds: all six orders
 	// are built, and one representative per DISTINCT built breaker (reflective dump) is explored - a reduction
 	// that merges only identical objects. On a tree where the order is irrelevant that is one exploration.
+	if prop == "C12" {
+		for i := range cfgs {
+			cfgs[i].companion = true
+		}
+		rep.Count("configurations_with_a_companion_breaker")
+	}
 	var expanded []config
 	for _, cfg := range cfgs {
 		seen := map[string]bool{}
@@ -486,11 +521,12 @@ func Run(tier string, sh lib.Shard, rep *lib.Report) {
 
 func Replay(rp map[string]any) (bool, string) {
 	cfg := config{time.Duration(int64(rp["fallback_ns"].(float64))), time.Duration(int64(rp["recovery_ns"].(float64))), time.Duration(int64(rp["check_ns"].(float64))),
-		rp["cond"].(string), int(rp["bad_code"].(float64)), 0, false}
+		rp["cond"].(string), int(rp["bad_code"].(float64)), 0, false, false}
 	if o, ok := rp["option_order"].(float64); ok {
 		cfg.order = int(o)
 	}
 	cfg.edge = rp["edge"] == true
+	cfg.companion = rp["companion"] == true
 	prop, _ := rp["property"].(string)
 	tier, _ := rp["tier"].(string)
 	m := model(cfg, prop, tier, 0)
